@@ -6,7 +6,11 @@ REL = {"S-C01": ["C01", "C08", "C03", "C09"], "S-C02": ["C02", "C01", "C03", "C0
        "S-C04": ["C04", "C08", "C07"], "S-C05": ["C05", "C07", "C09"], "S-C06": ["C06", "C05"], "S-C07": ["C07", "C01", "C02", "C03"],
        "S-C08": ["C08", "C17", "C01"], "S-C09": ["C09", "C08", "C13"], "S-C10": ["C10"], "S-C11": ["C11"], "S-C12": ["C12"],
        "S-C13": ["C13"], "S-C14": ["C14"], "S-C15": ["C15", "C09"], "S-C16": ["C16"], "S-C17": ["C17", "C08"], "S-C18": ["C18", "C10"],
-       "S-C19": ["C19"], "S-C20": ["C20", "C19"]}
+       "S-C19": ["C19"], "S-C20": ["C20", "C19"],
+       "S2-C01": ["C01", "C02", "C03", "C07"], "S2-C02": ["C02", "C01", "C03"], "S2-C03": ["C03", "C01", "C08"], "S2-C04": ["C04"],
+       "S2-C05": ["C05", "C07", "C09"], "S2-C06": ["C06", "C05"], "S2-C07": ["C07", "C09"], "S2-C08": ["C08", "C09"], "S2-C09": ["C09", "C08"],
+       "S2-C10": ["C10", "C09"], "S2-C11": ["C11"], "S2-C12": ["C12", "C09", "C13"], "S2-C13": ["C13", "C12"], "S2-C14": ["C14"],
+       "S2-C15": ["C15", "C09"], "S2-C16": ["C16"], "S2-C17": ["C17", "C08"], "S2-C18": ["C18", "C10"], "S2-C19": ["C19"], "S2-C20": ["C20", "C19"]}
 only = sys.argv[1:] 
 out = {}
 mp = VERIF / "seeded" / "MATRIX.json"
